@@ -15,7 +15,9 @@ and the group key of an aggregation is computed FROM THAT STRING (`strings.Index
 `strings.SplitN`) — the model does exactly the same, quirks included.  As of the fix for C09
 (label-name-is-suffix-of-another / metric-name-contains-colon) `ExtractGroupByFieldsFromSeriesId` looks
 only at the part after the first "{", splits it on "," and compares the text before the first ":" of a
-part with the field for EQUALITY; and computeAggCount groups when `Without` is set (count-without-empty-list).
+part with the field for EQUALITY.  computeAggCount is unchanged: it never looks at `Without`
+(known finding count-without-empty-list; the repo's Test_GetResults_AggFn_Count and the OTSDB query
+parser, which sets Without on every query, rely on it).
 Sample values are integers (the correspondence run uses integer-valued float64 with |sums| < 2^53, so the
 Go float arithmetic is exact); `avg` is the exact quotient, `f64div` is the correctly rounded float64
 quotient the Oracle prints for it.  Core Lean only.
@@ -213,10 +215,10 @@ deriving Repr
 def sidOf (q : Query) (s : Series) : Str := seriesIdOf q.name s.labels
 
 /-- the key under which a series' entries end up in `r.Results`.
-`count` with NO grouping fields and no `without` puts everything under `MetricName + "{"`
-(computeAggCount's else branch). -/
+`count` with NO grouping fields puts everything under `MetricName + "{"` (computeAggCount's else branch,
+also when `without` is set). -/
 def groupOf (q : Query) (sid : Str) : Str :=
-  if q.fn = .count ∧ q.fields = [] ∧ q.without = false then q.name ++ [cBrace]
+  if q.fn = .count ∧ q.fields = [] then q.name ++ [cBrace]
   else extractGroupKey q.fields q.without sid
 
 /-- all running entries (tagged with the series id they came from) of group `g` at bucket `t` -/
@@ -238,13 +240,13 @@ def reduceRunning : Fn → List Entry → Rat
   | .count, _ => 0
 
 /-- value of group `g` at bucket `t`; `none` = no such (group, timestamp) in the result.
-count: with grouping fields or `without` every entry is counted (`grpID-i` ids); otherwise
+count: with grouping fields every entry is counted (`grpID-i` ids); without fields
 `timestampToCount[ts]++` runs once per DISTINCT series id. -/
 def aggAt (q : Query) (ss : List Series) (g : Str) (t : Nat) : Option Rat :=
   let es := entriesAt q ss g t
   if es.isEmpty then none
   else some (match q.fn with
-    | .count => if q.fields = [] ∧ q.without = false then ((dedup (es.map (·.1))).length : Rat) else (es.length : Rat)
+    | .count => if q.fields = [] then ((dedup (es.map (·.1))).length : Rat) else (es.length : Rat)
     | fn => reduceRunning fn (es.map (·.2)))
 
 /-- the (group, timestamp) pairs present in the result -/
@@ -260,7 +262,7 @@ Every (key, timestamp, value) of the first result becomes one RunningEntry with 
 `getAggSeriesId(key)`; `count` goes through computeAggCount again (one entry per first-stage key). -/
 
 def group2 (q : Query) (g1 : Str) : Str :=
-  if q.fn = .count ∧ q.fields = [] ∧ q.without = false then q.name ++ [cBrace]
+  if q.fn = .count ∧ q.fields = [] then q.name ++ [cBrace]
   else extractGroupKey q.fields q.without g1
 
 def ratSum : List Rat → Rat
